@@ -117,7 +117,11 @@ func (s *Service) lastPruned(ctx context.Context) (*header.ExtendedHeader, error
 		return s.hstore.GetByHeight(ctx, lastPruned)
 	}
 
-	s.checkpoint.LastPrunedHeight = tail.Height()
+	if tail.Height() > lastPruned {
+		// the header store tail moved past the checkpoint: data below the new tail was pruned on
+		// header deletion, but the block at the tail itself has not been pruned yet
+		s.checkpoint.LastPrunedHeight = tail.Height() - 1
+	}
 	for height := range s.checkpoint.FailedHeaders {
 		if height < tail.Height() {
 			delete(s.checkpoint.FailedHeaders, height)
